@@ -15,13 +15,20 @@
              'reflect.Value.Call / Type.In / Type.Elem / AssignableTo are modelled over an abstract type '
              'universe (Model/Safety.v section 1)',
              'the readers themselves (hierarchy reader, stream readers, csv/fixed-length, EDI) are modelled '
-             'under C04..C07; read_terminates_bound takes their progress property as a Section hypothesis',
+             'under C04..C07; read_terminates_bound takes their progress property as a Section hypothesis; '
+             'hier_reads_bound / edi_reads_bound are closed instances over C05\'s machine = specification theorems '
+             '(Proofs/HierTerm.v), inheriting C05\'s trusted base and, for EDI, its guard no_root_repeat (F14)',
              'Gen/Safety.v: isValidDelimiter of csv and csv2 (and whether validateFileDecl applies it), '
-             'JSON-schema bounds, extracted on every run'],
+             'JSON-schema bounds, and whether each of the five ValidateSchema returns the json.Unmarshal error, '
+             'extracted on every run',
+             'antchfx/xpath evaluation enters query_wrappers_no_panic as an arbitrary outcome (panic or n nodes); '
+             'goja export enters javascript_result_no_panic_partial as a five-way classification of the completion '
+             'value (validated by the harness only)'],
  'assumptions': ['sig_ok: the first parameter of a registered custom function accepts *transformctx.Ctx '
                  '(registration is caller code, outside the claim)',
-                 'guards of the known findings (KNOWN_FINDINGS.txt, property C03): int_plain, xd_no_null, '
-                 'tpl_small, groups_small, xpath_plain, js_export_total; the main generators stay inside '
-                 'them, the recorded inputs are replayed from replays/corpus/C03 on every run',
+                 'guards of the known findings (KNOWN_FINDINGS.txt, property C03): tpl_small (N3), groups_small (N4), '
+                 'js_no_map_set (N8); the main generators stay inside them, the recorded inputs are replayed from '
+                 'replays/corpus/C03 on every run (N8 in a process of its own); the classes of the repaired N1, N2, N5, '
+                 'N6, N7 are exercised by the generators',
                  'read bound: a finite input of n bytes reaches a terminal result within n+2 Reads (the '
                  'constant the harness enforces)']}
